@@ -97,10 +97,6 @@ Section Generic.
   Qed.
 End Generic.
 
-Arguments derives step co X _.
-Arguments Der step co X a bs _ _ _.
-Arguments cosound step co X.
-Arguments holds step co a.
 
 Lemma derives_step_ext : forall (s1 s2 : ty -> list ty -> Prop) co X a,
   (forall a bs, s1 a bs -> s2 a bs) -> derives s1 co X a -> derives s2 co X a.
